@@ -134,7 +134,13 @@ func (g *dg) val(depth int) string {
 
 func (g *dg) form() string {
 	v := g.val(3)
-	switch g.n(0, 32, "form") {
+	switch g.n(0, 34, "form") {
+	case 33, 34:
+		// written timestamps carry their own offset: arithmetic on them and their
+		// formatting do not consult the host's time zone
+		ts := g.pick("stamp", "2024-03-30T12:00:00+01:00", "2024-03-09T12:00:00-05:00", "2024-10-26T23:30:00+02:00", "2024-11-02T12:00:00-04:00", "2024-06-01T00:00:00+05:30", "2024-03-30T12:00:00Z")
+		d := g.pick("dur", "48h", "24h", "-72h", "1h", "8760h")
+		return fmt.Sprintf("(list (time:format-rfc3339 (time:time-add (time:parse-rfc3339 %q) (time:parse-duration %q))) (time:format-rfc3339-nano (time:parse-rfc3339-nano %q)))", ts, d, ts)
 	case 31, 32:
 		// a map is enumerated, changed in place (also by operations that find
 		// nothing to change) and enumerated again
@@ -372,7 +378,12 @@ func TestTranscriptChild(t *testing.T) {
 
 func childDigests(path string, gomaxprocs int) (map[int]string, error) {
 	cmd := exec.Command(os.Args[0], "-test.run", "^TestTranscriptChild$", "-test.v")
-	cmd.Env = append(os.Environ(), "C10_BATCH_FILE="+path, fmt.Sprintf("GOMAXPROCS=%d", gomaxprocs), "VERIF_OUT=")
+	// the child also lives in another time zone (one with daylight saving)
+	tz := "Europe/Berlin"
+	if gomaxprocs == 1 {
+		tz = "America/New_York"
+	}
+	cmd.Env = append(os.Environ(), "C10_BATCH_FILE="+path, fmt.Sprintf("GOMAXPROCS=%d", gomaxprocs), "VERIF_OUT=", "TZ="+tz)
 	out, err := cmd.CombinedOutput()
 	if err != nil {
 		return nil, fmt.Errorf("child failed: %v\n%s", err, out)
